@@ -93,8 +93,20 @@ func signECDSA(k *ecdsa.PrivateKey, h crypto.Hash, tbs []byte) (algID, sig []byt
 
 type nameAttr struct {
 	oid []int
-	tag byte // string type
-	val string
+	tag byte   // string type (or another universal tag for non-string values)
+	val string // content octets
+}
+
+// text is the decoded string value (differs from the content octets for BMPString).
+func (a nameAttr) text() string {
+	if a.tag == 0x1e {
+		var rs []rune
+		for i := 0; i+1 < len(a.val); i += 2 {
+			rs = append(rs, rune(a.val[i])<<8|rune(a.val[i+1]))
+		}
+		return string(rs)
+	}
+	return a.val
 }
 
 // dn is a distinguished name: a sequence of RDNs, each a set of attributes.
@@ -130,7 +142,7 @@ func (n *dn) flat() []string {
 	var out []string
 	for _, rdn := range n.rdns {
 		for _, a := range rdn {
-			out = append(out, oidString(a.oid)+"="+a.val)
+			out = append(out, oidString(a.oid)+"="+a.text())
 		}
 	}
 	return out
